@@ -10,6 +10,7 @@ import (
 	"os/exec"
 	"path/filepath"
 	"regexp"
+	"sort"
 	"strings"
 	"sync"
 	"time"
@@ -110,12 +111,176 @@ func sanitizeFile(s string) string {
 }
 
 // obligationScript builds the SMT query for an obligation: unsat = discharged.
+// Universally quantified goals are skolemised here, and every quantified
+// assumption is additionally instantiated at the terms of matching sort that
+// occur in the goal (the quantified originals stay in the query, so this only
+// helps the solver and changes nothing about what is proved).
 func (x *Exec) obligationScript(o *Obligation, getValues []*Term) string {
 	c := x.c
 	var asserts []*Term
 	asserts = append(asserts, x.assumps[:o.NAssum]...)
-	asserts = append(asserts, o.Guard, c.Not(o.Cond))
+	goal := c.skolemize(o.Cond)
+	asserts = append(asserts, o.Guard, c.Not(goal))
+	if os.Getenv("GOVC_INSTANTIATE") != "" && (goal != o.Cond || hasQuantifier(asserts)) {
+		pool := c.poolOf([]*Term{goal, o.Guard}, 20)
+		var inst []*Term
+		for _, a := range x.assumps[:o.NAssum] {
+			inst = append(inst, c.instances(a, pool)...)
+		}
+		asserts = append(asserts, inst...)
+	}
 	return c.Script(asserts, ScriptOpts{ProduceModels: len(getValues) > 0, GetValues: getValues})
+}
+
+func hasQuantifier(ts []*Term) bool {
+	for _, t := range ts {
+		if t.op == "forall" || (t.op == "=>" && t.args[1].op == "forall") || t.op == "and" {
+			var found bool
+			var walk func(t *Term)
+			walk = func(t *Term) {
+				if found {
+					return
+				}
+				switch t.op {
+				case "forall":
+					found = true
+				case "and":
+					for _, a := range t.args {
+						walk(a)
+					}
+				case "=>":
+					walk(t.args[1])
+				}
+			}
+			walk(t)
+			if found {
+				return true
+			}
+		}
+	}
+	return false
+}
+
+// skolemize replaces universally quantified subformulas in positive position
+// (under and / or / the consequent of =>) by instances at fresh constants.
+func (c *Ctx) skolemize(t *Term) *Term {
+	switch t.op {
+	case "forall":
+		m := map[*Term]*Term{}
+		for _, b := range t.bvs {
+			m[b] = c.Fresh("sk_"+strings.SplitN(b.name, "?", 2)[0], b.sort)
+		}
+		return c.skolemize(c.Subst(t.args[0], m))
+	case "and":
+		args := make([]*Term, len(t.args))
+		for i, a := range t.args {
+			args[i] = c.skolemize(a)
+		}
+		return c.And(args...)
+	case "or":
+		args := make([]*Term, len(t.args))
+		for i, a := range t.args {
+			args[i] = c.skolemize(a)
+		}
+		return c.Or(args...)
+	case "=>":
+		return c.Implies(t.args[0], c.skolemize(t.args[1]))
+	}
+	return t
+}
+
+// poolOf: closed non-literal subterms of the given formulas, grouped by sort (at most n per sort, smallest first).
+func (c *Ctx) poolOf(ts []*Term, n int) map[string][]*Term {
+	seen := map[*Term]bool{}
+	bySort := map[string][]*Term{}
+	var walk func(t *Term)
+	walk = func(t *Term) {
+		if seen[t] {
+			return
+		}
+		seen[t] = true
+		if t.op == "forall" || t.op == "exists" {
+			return
+		}
+		for _, a := range t.args {
+			walk(a)
+		}
+		if !t.open && !t.isLit() && (bvWidth(t.sort) > 0 || t.sort == SRef || t.sort == "Addr") {
+			bySort[t.sort] = append(bySort[t.sort], t)
+		}
+	}
+	for _, t := range ts {
+		walk(t)
+	}
+	for s, l := range bySort {
+		// prefer skolem constants and small terms
+		sort.SliceStable(l, func(i, j int) bool { return termSize(l[i], 12) < termSize(l[j], 12) })
+		if len(l) > n {
+			l = l[:n]
+		}
+		bySort[s] = l
+	}
+	return bySort
+}
+
+func termSize(t *Term, cap int) int {
+	n := 1
+	for _, a := range t.args {
+		if n > cap {
+			break
+		}
+		n += termSize(a, cap-n)
+	}
+	return n
+}
+
+// instances of the universally quantified parts of an assumption at the pool terms.
+func (c *Ctx) instances(a *Term, pool map[string][]*Term) []*Term {
+	var out []*Term
+	var rec func(t *Term, guards []*Term)
+	rec = func(t *Term, guards []*Term) {
+		switch t.op {
+		case "and":
+			for _, x := range t.args {
+				rec(x, guards)
+			}
+		case "=>":
+			rec(t.args[1], append(append([]*Term{}, guards...), t.args[0]))
+		case "forall":
+			if len(t.bvs) > 2 {
+				return
+			}
+			var combos [][]*Term
+			first := pool[t.bvs[0].sort]
+			if len(t.bvs) == 1 {
+				for _, p := range first {
+					combos = append(combos, []*Term{p})
+				}
+			} else {
+				second := pool[t.bvs[1].sort]
+				for _, p := range first {
+					for _, q := range second {
+						if len(combos) < 64 {
+							combos = append(combos, []*Term{p, q})
+						}
+					}
+				}
+			}
+			for _, cb := range combos {
+				m := map[*Term]*Term{}
+				for i, b := range t.bvs {
+					m[b] = cb[i]
+				}
+				body := c.Subst(t.args[0], m)
+				if body.open {
+					continue
+				}
+				out = append(out, c.Implies(c.And(guards...), body))
+			}
+		}
+	}
+	rec(a, nil)
+	return out
 }
 
 // dischargeAll solves all obligations in parallel.
@@ -137,6 +302,60 @@ func (x *Exec) dischargeAll(obls []*Obligation, dir string, timeoutS int, par in
 	}
 	sem := make(chan struct{}, par)
 	var wg sync.WaitGroup
+	// Batches: consecutive run-time-safety obligations made under the same
+	// assumptions are first tried as one query (the disjunction of their
+	// negations); unsat discharges every member. Otherwise each is tried alone.
+	type batch struct{ idx []int }
+	var batches []batch
+	safety := func(k string) bool { return k == "nil" || k == "bounds" || k == "div" || k == "shift" || k == "typeassert" }
+	for i := 0; i < len(obls); {
+		o := obls[i]
+		if o.Status != "" || !safety(o.Kind) {
+			i++
+			continue
+		}
+		j := i
+		var idx []int
+		for j < len(obls) && len(idx) < 24 && obls[j].Func == o.Func && obls[j].NAssum == o.NAssum && (obls[j].Status != "" || safety(obls[j].Kind)) {
+			if obls[j].Status == "" {
+				idx = append(idx, j)
+			}
+			j++
+		}
+		if len(idx) >= 2 {
+			batches = append(batches, batch{idx})
+		}
+		i = j
+	}
+	batchScripts := make([]string, len(batches))
+	for bi, b := range batches {
+		var disj []*Term
+		for _, k := range b.idx {
+			disj = append(disj, x.c.And(obls[k].Guard, x.c.Not(obls[k].Cond)))
+		}
+		var asserts []*Term
+		asserts = append(asserts, x.assumps[:obls[b.idx[0]].NAssum]...)
+		asserts = append(asserts, x.c.Or(disj...))
+		batchScripts[bi] = x.c.Script(asserts, ScriptOpts{})
+	}
+	for bi, b := range batches {
+		bi, b := bi, b
+		wg.Add(1)
+		sem <- struct{}{}
+		go func() {
+			defer wg.Done()
+			defer func() { <-sem }()
+			r := raceSolvers(batchScripts[bi], dir, fmt.Sprintf("batch%d_%s", bi, obls[b.idx[0]].Name), min(timeoutS, 20))
+			if r.status == "unsat" {
+				for _, k := range b.idx {
+					obls[k].Status = "discharged"
+					obls[k].Solver = r.solver + " (batch)"
+					obls[k].Seconds = r.seconds / float64(len(b.idx))
+				}
+			}
+		}()
+	}
+	wg.Wait()
 	for i, o := range obls {
 		if o.Status != "" {
 			continue
